@@ -495,6 +495,9 @@ func sweepHookOpts(prop string, keep func(o *Obligation) bool, frames bool) prop
 				if explicit && strings.HasPrefix(o.Kind, "loop#") {
 					return true // invariants the postconditions above are proved with
 				}
+				if strings.HasPrefix(o.Kind, "call/") && strings.HasSuffix(o.Kind, "/decreases") {
+					return true // termination: recursive calls go to smaller arguments
+				}
 				if strings.HasPrefix(o.Kind, "call/") && strings.Contains(o.Kind, "/pre") {
 					// preconditions of assumed contracts of dependencies (e.g. ast.Inspect needs a non-nil node)
 					return true
@@ -504,6 +507,29 @@ func sweepHookOpts(prop string, keep func(o *Obligation) bool, frames bool) prop
 			n++
 		}
 		c.extraEv["sweep_functions"] = n
+		if !frames {
+			// termination ("no checker hangs"): every function on a cycle of the static call graph carries a measure that
+			// its recursive calls decrease (obligations call/<callee>/decreases above), or a stated reason
+			nrec := 0
+			for _, comp := range recursiveFunctions(c.e) {
+				for _, f := range comp {
+					k := funcKey(f)
+					if !strings.HasPrefix(k, "checkers") && !strings.HasPrefix(k, "linter") {
+						continue
+					}
+					nrec++
+					ctr := c.e.ctrs[k]
+					ok := ctr != nil && (ctr.Decreases != nil || ctr.TerminatesBy != "")
+					if ctr != nil && ctr.TerminatesBy != "" {
+						c.assumed["termination of "+k+" assumed: "+ctr.TerminatesBy] = true
+					}
+					c.direct = append(c.direct, &directResult{Name: k + "/termination/recursive-function-has-a-measure", OK: ok,
+						Detail: "the function calls itself (directly or through " + fmt.Sprint(len(comp)-1) + " other function(s)) and its contract names no `decreases` measure: nothing shows that the recursion ends on cyclic types or deep trees"})
+				}
+			}
+			c.extraEv["recursive_functions"] = nrec
+			c.assumed["termination: only recursion through static calls is examined; loops without a `decreases` clause and recursion through function values (closures calling themselves through a variable, callbacks of ast.Inspect) are not"] = true
+		}
 	}
 }
 
@@ -570,4 +596,7 @@ func writeLedger(prop string, jobs []job) {
 func init() {
 	registerHook("C01", sweepHook("C01", nil))
 	registerHook("C05", sweepHookOpts("C05", nil, true))
+	// C04: checkers run concurrently over one file; that they do not race rests on each of them writing only state it
+	// owns - the same frame obligations, discharged again under C04 (with their own ledger)
+	registerHook("C04", sweepHookOpts("C04", nil, true))
 }
